@@ -116,8 +116,19 @@ def run_case(case, ctx):
                "corpus": corpus, "sub": case["sub"]}
         K = "C14/%s/" % name
         p, c = Parent(**o), Child(**o)
+        container = ["list", "list", "ndarray", "series", "tuple"][case["sub"] % 5]
+        if container == "ndarray":
+            cin = numpy.array(corpus, dtype=object)
+        elif container == "series":
+            import pandas
+            cin = pandas.Series(corpus, dtype=object)
+        elif container == "tuple":
+            cin = tuple(corpus)
+        else:
+            cin = corpus
+        ctx.cls("container=" + container)
         mp, ep = attempt(lambda: p.fit_transform(corpus))
-        mc, ec = attempt(lambda: c.fit_transform(corpus))
+        mc, ec = attempt(lambda: c.fit_transform(cin))
         ctx.cls("ngram=%d-%d" % o["ngram_range"])
         ctx.cls("stop_words=%s" % ("none" if "stop_words" not in o else
                                    ("english" if o["stop_words"] == "english" else "custom")))
